@@ -73,6 +73,9 @@ def _layout(e: ast.AST) -> Tuple[str, Optional[ast.AST], Optional[ast.AST]]:
     x = e
     while isinstance(x, ast.Call) and attr_chain(x.func) == "Points" and x.args:
         x = x.args[0]
+    if isinstance(x, ast.Subscript) and isinstance(x.value, ast.Call) and (attr_chain(x.value.func) or "").endswith("._repeat_params") \
+            and isinstance(x.slice, ast.Constant) and x.slice.value == 1:
+        x = x.value  # the second element of (count, repeated parameters), unpacked or indexed
     if isinstance(x, ast.Call):
         ch = attr_chain(x.func) or ""
         if ch.endswith("._repeat_params") and len(x.args) == 2:
